@@ -622,6 +622,21 @@ CORPUS = [
             ("rx", "A", "data", 3, 2, "bb"), ("listen", "A", "a", "half"), ("rx", "A", "data", 4, 2, "cc"),
             ("losew", "A", 0), ("rx", "A", "open", 5, 2, "a")]),
     mkcase([("connect", "A", "a", "full")], sa="same", sb="same"),
+    # several pending OPENs for one name, each with its own queued DATA, the first also with a queued CLOSE
+    # (Props: exPending2 / listen_connects_all_pending / each_pending_gets_its_own_data)
+    mkcase([("connect", "A", "a", "full"), ("connect", "A", "a", "full"), ("connect", "A", "b", "half"),
+            ("deliver", "A"), ("deliver", "A"), ("deliver", "A"), ("write", "A", 0, "07"), ("write", "A", 1, "08"),
+            ("write", "A", 2, "0a"), ("lose", "A", 0), ("write", "A", 1, "09"), ("losew", "A", 2),
+            ("deliver", "A"), ("deliver", "A"), ("deliver", "A"), ("deliver", "A"), ("deliver", "A"), ("deliver", "A"),
+            ("listen", "B", "a", "full"), ("listen", "B", "b", "half"), ("deliver", "B"), ("deliver", "B"),
+            ("write", "B", 1, "0b"), ("deliver", "B"), ("deliver", "A")]),
+    # forged CLOSE (Props: data_before_close_unrestricted_false): a record injected from outside makes
+    # connectionLost overtake data in flight -- model and real code agree; outside the honest environment
+    mkcase([("listen", "B", "a", "full"), ("connect", "A", "a", "full"), ("deliver", "A"), ("write", "A", 0, "07"),
+            ("lose", "A", 0), ("rx", "B", "close", 5, 1), ("deliver", "A"), ("deliver", "A")]),
+    # a peer that opens one of OUR ids: the next local connect() raises AssertionError (open_exactly_once, case 3)
+    mkcase([("rx", "A", "open", 0, 1, "a"), ("connect", "A", "b", "full"), ("connect", "A", "b", "full"),
+            ("listen", "A", "a", "full"), ("write", "A", 0, "01")]),
 ]
 
 
